@@ -795,10 +795,12 @@ func Replay(g *Gen, r *UnitResult, ob *Obligation, cfg SolverCfg, dir string) (r
 	var clause Expr
 	switch ob.Kind {
 	case "ensures":
-		for i, c := range ct.Ensures {
+		unl := 0
+		for _, c := range ct.Ensures {
 			lbl := c.Label
 			if lbl == "" {
-				lbl = fmt.Sprint(i + 1)
+				unl++
+				lbl = fmt.Sprint(unl)
 			}
 			if ob.Name == "ensures#"+lbl {
 				clause = c.E
